@@ -25,6 +25,9 @@ pub enum Op {
     /// the application starts waiting for completion (first poll included)
     StartCompletion,
     PollCompletion,
+    /// the application gives its completion wait up (a time-out around it, a `select!` arm that
+    /// lost); a later StartCompletion waits again
+    CancelCompletion,
 }
 
 struct CountingWaker(AtomicUsize);
@@ -56,6 +59,7 @@ pub fn run_schedule(ops: &[Op]) -> Verdict {
     let cwaker = Arc::new(CountingWaker(AtomicUsize::new(0)));
     let mut completion_parked = false;
     let mut completion_done = false;
+    let mut completion_ever_started = false;
 
     let alive_guards = |parts: &Vec<Option<Participant>>| parts.iter().flatten().filter(|p| p.guard.is_some()).count();
 
@@ -63,8 +67,10 @@ pub fn run_schedule(ops: &[Op]) -> Verdict {
         match *op {
             Op::Register(k) => {
                 let k = k as usize % 4;
-                if parts[k].is_some() || completion.is_some() {
-                    continue; // the application holds the lock while it waits for completion
+                if parts[k].is_some() || completion.is_some() || completion_ever_started {
+                    // the application holds the lock while it waits for completion; and once a
+                    // completion wait has begun nobody new can register for it
+                    continue;
                 }
                 let (mut n, g) = {
                     let s = shutdown.lock().unwrap();
@@ -166,10 +172,17 @@ pub fn run_schedule(ops: &[Op]) -> Verdict {
                     );
                 }
             }
+            Op::CancelCompletion => {
+                if completion.is_some() && !completion_done {
+                    completion = None;
+                    completion_parked = false;
+                }
+            }
             Op::StartCompletion | Op::PollCompletion => {
                 if completion_done {
                     continue;
                 }
+                completion_ever_started |= *op == Op::StartCompletion;
                 if completion.is_none() {
                     if *op == Op::PollCompletion {
                         continue;
@@ -267,7 +280,7 @@ impl Suite for ScheduleSuite {
         "primitive-schedules-random"
     }
     fn rule(&self) -> String {
-        "schedules of 4-24 steps over {register k, poll k's notification wait, submit, finish k, start completion wait, poll completion} for up to 4 participants, executed on the real Shutdown / Notification / CompletionGuard with a hand-driven poll loop and counting wakers (every interleaving at await-point granularity is a schedule); model: a participant registered before a submission observes it at its next poll and is woken if parked, nobody is notified without a submission, completion is pending while a registered guard is alive, ready at the first poll after the last one dropped, and the waiter is woken by that drop; non-trivial = a submission falls between a registration and that participant's first poll".into()
+        "schedules of 4-24 steps over {register k, poll k's notification wait, submit, finish k, start completion wait, poll completion, give the completion wait up (a later start waits again)} for up to 4 participants, executed on the real Shutdown / Notification / CompletionGuard with a hand-driven poll loop and counting wakers (every interleaving at await-point granularity is a schedule); model: a participant registered before a submission observes it at its next poll and is woken if parked, nobody is notified without a submission, completion is pending while a registered guard is alive, ready at the first poll after the last one dropped, and the waiter is woken by that drop; non-trivial = a submission falls between a registration and that participant's first poll".into()
     }
     fn strategy(&self, _: Tier) -> BoxedStrategy<Case> {
         let op = prop_oneof![
@@ -275,8 +288,9 @@ impl Suite for ScheduleSuite {
             4 => (0u8..4).prop_map(Op::Poll),
             2 => Just(Op::Submit),
             3 => (0u8..4).prop_map(Op::Finish),
-            1 => Just(Op::StartCompletion),
+            2 => Just(Op::StartCompletion),
             2 => Just(Op::PollCompletion),
+            1 => Just(Op::CancelCompletion),
         ];
         prop::collection::vec(op, 4..=24).prop_map(|ops| Case { ops }).boxed()
     }
@@ -290,6 +304,11 @@ impl Suite for ScheduleSuite {
         }
         if c.ops.contains(&Op::StartCompletion) {
             v.push("with-completion");
+        }
+        if let Some(i) = c.ops.iter().position(|o| *o == Op::CancelCompletion) {
+            if c.ops[..i].contains(&Op::StartCompletion) && c.ops[i..].contains(&Op::StartCompletion) {
+                v.push("completion-wait-cancelled-and-repeated");
+            }
         }
         v
     }
@@ -308,7 +327,7 @@ fn exhaustive(ctx: &mut Ctx) {
         return;
     }
     let len = ctx.tier.pick(7usize, 8usize);
-    const ALPHABET: [Op; 9] = [
+    const ALPHABET: [Op; 10] = [
         Op::Register(0),
         Op::Register(1),
         Op::Poll(0),
@@ -318,6 +337,7 @@ fn exhaustive(ctx: &mut Ctx) {
         Op::Finish(1),
         Op::StartCompletion,
         Op::PollCompletion,
+        Op::CancelCompletion,
     ];
     let total: u64 = (ALPHABET.len() as u64).pow(len as u32);
     let mut evals = 0u64;
@@ -332,8 +352,8 @@ fn exhaustive(ctx: &mut Ctx) {
         let mut ops = Vec::with_capacity(len);
         let mut x = n;
         for _ in 0..len {
-            ops.push(ALPHABET[(x % 9) as usize]);
-            x /= 9;
+            ops.push(ALPHABET[(x % ALPHABET.len() as u64) as usize]);
+            x /= ALPHABET.len() as u64;
         }
         evals += 1;
         if nontrivial(&ops) {
@@ -356,7 +376,7 @@ fn exhaustive(ctx: &mut Ctx) {
     let s = ctx.suite_mut(SUITE);
     s.exhaustive = Some(true);
     s.rule = format!(
-        "all 9^{} schedules of exactly {} steps over the 9 operations of two participants (shorter ones are covered as prefixes with skipped steps); same interpreter and model",
+        "all 10^{} schedules of exactly {} steps over the 10 operations of two participants (shorter ones are covered as prefixes with skipped steps); same interpreter and model",
         len, len
     );
 }
